@@ -33,7 +33,7 @@ def level_tables(tc, model):
                 b = a["body"]
                 if b.get("k") == "block" and len(b["stmts"]) == 1 and b["stmts"][0].get("k") == "expr":
                     b = b["stmts"][0]["e"]
-                if b.get("k") == "path" and len(b["segs"]) >= 2 and b["segs"][-2] == "ExpressionLevel":
+                if b.get("k") == "path" and len(b["segs"]) >= 2 and (b["segs"][-2] == "ExpressionLevel" or (b["segs"][-2] == "Self" and f.base == "ExpressionLevel")):
                     for v in sir.pat_variants(a["pat"]):
                         table[v] = b["segs"][-1]
                 else:
@@ -163,6 +163,47 @@ def _variant_literal(body, e, variant):
     return None
 
 
+def _unroll_for(n, body, names, variant):
+    """`for (sep, loc, child) in [(\"?\", l1, a), (\":\", l2, b)] { write(sep); print(child, Level) }` -> the events of each round"""
+    it = sir.strip_ref(n["e"])
+    if it.get("k") == "path" and len(it["segs"]) == 1:
+        for st in sir.walk(body):
+            if st.get("k") == "local" and st["pat"].get("name") == it["segs"][0] and st.get("init") is not None:
+                it = sir.strip_ref(st["init"])
+                break
+    if it.get("k") == "mcall" and it["m"] in ("iter", "into_iter") and not it["args"]:
+        it = sir.strip_ref(it["recv"])
+    if it.get("k") != "array" or not it.get("elems") or not all(e.get("k") == "tuple" for e in it["elems"]):
+        return None
+    pat = n.get("pat")
+    if pat is None or pat.get("k") != "p_tuple" or not all(p.get("k") == "p_ident" for p in pat["elems"]):
+        return None
+    pn = [p["name"] for p in pat["elems"]]
+    out = []
+    for tup in it["elems"]:
+        if len(tup["elems"]) != len(pn):
+            return None
+        amap = dict(zip(pn, tup["elems"]))
+        for x in sir.walk(n["body"]):
+            if x.get("k") == "call":
+                lvl = _level_arg(x["args"])
+                if lvl:
+                    for a in x["args"]:
+                        a_ = sir.strip_ref(a)
+                        if a_.get("k") == "path" and a_.get("s") in amap:
+                            tgt = sir.strip_ref(amap[a_["s"]])
+                            if tgt.get("k") == "path" and tgt.get("s") in names:
+                                out.append(("child", tgt["s"], lvl, sir.call_path(x) or "?"))
+            elif x.get("k") == "mcall" and x["m"] in ("write_token", "write_str") and x["args"]:
+                a_ = sir.strip_ref(x["args"][0])
+                tgtw = sir.expr_str(sir.strip_ref(x["recv"]))
+                if a_.get("k") == "lit" and a_.get("t") == "str":
+                    out.append(("lit", a_["v"], tgtw))
+                elif a_.get("k") == "path" and a_.get("s") in amap and sir.strip_ref(amap[a_["s"]]).get("k") == "lit":
+                    out.append(("lit", sir.strip_ref(amap[a_["s"]])["v"], tgtw))
+    return out or None
+
+
 INDEX = None  # set by the harness: the crate index, used to look through private helpers
 
 
@@ -213,8 +254,18 @@ def arm_events(body, names, variant=None):
     """Source-order events of an arm: ('child', binding, level, via) for calls that generate/print a child with an
     explicit ExpressionLevel, ('lit', text) for literal text written. `names` = binding names of the child fields."""
     ev = []
+    skip = set()
     for n in sir.walk(body):
+        if id(n) in skip:
+            continue
         k = n.get("k")
+        if k == "for":
+            un = _unroll_for(n, body, names, variant)
+            if un is not None:
+                ev.extend(un)
+                for x in sir.walk(n):
+                    skip.add(id(x))
+                continue
         if k == "mcall":
             lvl = _level_arg(n["args"])
             recv = sir.strip_ref(n["recv"])
